@@ -34,7 +34,7 @@ var histories = []history{
 
 type gridOpts struct {
 	N          int      // ordinal universe 0..N-1
-	MaxR       int32    // replicas 0..MaxR
+	MinR, MaxR int32    // replicas MinR..MaxR
 	MaxSlots   int      // slot subsets up to this size
 	Policies   []string // pod management policies
 	Strategies []gen.Strategy
@@ -73,6 +73,11 @@ func alphabet(h history, rich bool) []gen.Cell {
 			add(gen.Cell{Present: true, Phase: v1.PodPending, Term: true, Rev: r})
 			add(gen.Cell{Present: true, Phase: v1.PodFailed, Term: true, Rev: r})
 		}
+	}
+	// a healthy pod whose identity label is missing: the controller must repair it with an update
+	if len(h.Revs) > 0 {
+		add(gen.Cell{Present: true, Phase: v1.PodRunning, Ready: true, Rev: len(h.Revs) - 1, NoIdent: true})
+		add(gen.Cell{Present: true, Phase: v1.PodFailed, Term: true, Rev: len(h.Revs) - 1})
 	}
 	// a pod whose label names no stored revision
 	add(gen.Cell{Present: true, Phase: v1.PodRunning, Ready: true, Rev: -1})
@@ -121,7 +126,7 @@ func snapshotGrid(o gridOpts, emit func(explore.Case) bool) {
 	slotSets := gen.Subsets(universe, o.MaxSlots)
 	for _, h := range o.Histories {
 		alpha := alphabet(h, o.Rich)
-		for r := int32(0); r <= o.MaxR; r++ {
+		for r := o.MinR; r <= o.MaxR; r++ {
 			for _, slots := range slotSets {
 				des := desiredOf(r, slots)
 				base := steady(o.N, des, h)
@@ -159,6 +164,6 @@ func fmtOpts(o gridOpts) string {
 	for _, h := range o.Histories {
 		hs = append(hs, h.Name)
 	}
-	return fmt.Sprintf("ordinals 0..%d, replicas 0..%d, every slot subset of the ordinals with <=%d members, policies %v, strategies %v, histories %v, pod populations differing from the steady state in %d..%d ordinals (max<0 = full product) over a %s cell alphabet (phase x ready x terminating x revision), deleting=%v paused=%v",
-		o.N-1, o.MaxR, o.MaxSlots, o.Policies, o.Strategies, hs, o.DMin, o.DMax, map[bool]string{true: "rich", false: "basic"}[o.Rich], o.Deleting, o.Paused)
+	return fmt.Sprintf("ordinals 0..%d, replicas %d..%d, every slot subset of the ordinals with <=%d members, policies %v, strategies %v, histories %v, pod populations differing from the steady state in %d..%d ordinals (max<0 = full product) over a %s cell alphabet (phase x ready x terminating x revision), deleting=%v paused=%v",
+		o.N-1, o.MinR, o.MaxR, o.MaxSlots, o.Policies, o.Strategies, hs, o.DMin, o.DMax, map[bool]string{true: "rich", false: "basic"}[o.Rich], o.Deleting, o.Paused)
 }
